@@ -152,6 +152,20 @@ func (g *Guards) quick(cond *Term, c *Cube) int {
 		if a.W == 0 {
 			return 0
 		}
+		if t.Op == OpEq && a.Op == OpVar && b.Op == OpVar && a.W == 8 {
+			ma, mb := g.masks[c.mid(int(a.C))], g.masks[c.mid(int(b.C))]
+			if ma.And(mb).Empty() {
+				r = -1
+			} else if ma.Count() == 1 && ma == mb {
+				r = 1
+			}
+			if r != 0 {
+				if neg {
+					r = -r
+				}
+				return r
+			}
+		}
 		ai, bi := g.ivalOf(a, c, memo), g.ivalOf(b, c, memo)
 		if ai.ok && bi.ok {
 			switch t.Op {
